@@ -1,5 +1,321 @@
-//! C04 harness — to be written (see /verif/mc/HARNESS_GUIDE.md).
-fn main() {
-    eprintln!("MACHINERY-ERROR: harness C04 not built yet");
-    std::process::exit(2);
+//! C04 — nearest-neighbour search is exact; k-NN estimators predict from exact neighbours.
+//!
+//! E1: every *sequence* (construction order matters) of points of small lattices x every query of
+//! the half-step grid x every k x every realised radius (and its floating-point neighbours) x four
+//! metrics x both search structures, judged against brute force with the same `Distance` object;
+//! structured larger sets (n <= 200, 1..6 dimensions); the scale-boundary alphabet of the cover
+//! tree; every labelling / k / weight / structure for the two estimators.
+//! E2: explicit-state search over the real `HeapSelection`.
+
+mod data;
+mod est;
+mod heap;
+mod search;
+
+use data::*;
+use mc_core::{self as mc, json, ExtraResult, Harness, Job, Plan, Tier, Value};
+use search::{Metric, Opts};
+
+struct C04;
+
+const CLS_LABELS: [f64; 3] = [-3.0, 7.0, 10.0];
+const CLS_LABELS2: [f64; 2] = [1.0, -1.0];
+const REG_TARGETS: [f64; 3] = [0.0, 1.0, 3.0];
+
+fn fixed_of(job: &Job) -> Vec<usize> {
+    job.params["fixed"].as_array().map(|a| a.iter().map(|v| v.as_u64().unwrap() as usize).collect()).unwrap_or_default()
 }
+
+/// Draw the points of a lattice sequence: the first ones are fixed by the job, the others chosen.
+fn draw_points(job: &Job, n: usize, letters: usize) -> Vec<usize> {
+    let mut p = fixed_of(job);
+    while p.len() < n {
+        p.push(mc::choose(letters));
+    }
+    p
+}
+
+fn run_search<T: Fl>(job: &Job, seed: u64) {
+    let m = seed_map(seed);
+    let metric = Metric::parse(job.s("metric"));
+    let n = job.u("n");
+    match job.kind() {
+        "lat2" => {
+            let p = draw_points(job, n, 9);
+            let q = mc::choose(NQ2);
+            let data: Vec<Vec<f64>> = p.iter().map(|&i| lat2(i, m)).collect();
+            search::search_case::<T>(metric, &data, &qgrid2(q, m), &Opts { all_radii: true, all_k: true });
+        }
+        "lat1" => {
+            let p = draw_points(job, n, 5);
+            let q = mc::choose(NQ1);
+            let data: Vec<Vec<f64>> = p.iter().map(|&i| lat1(i, m)).collect();
+            search::search_case::<T>(metric, &data, &qgrid1(q, m), &Opts { all_radii: true, all_k: true });
+        }
+        "scale" => {
+            let a = scale_alphabet();
+            let p = draw_points(job, n, a.len());
+            // queries: every letter and 0.5
+            let q = mc::choose(a.len() + 1);
+            let data: Vec<Vec<f64>> = p.iter().map(|&i| vec![a[i]]).collect();
+            let query = vec![if q < a.len() { a[q] } else { 0.5 }];
+            search::search_case::<T>(metric, &data, &query, &Opts { all_radii: true, all_k: true });
+        }
+        "fam" => {
+            let data = family(job.s("family"), n, job.u("dim"), seed);
+            let queries = family_queries(&data);
+            let step = job.u("qstep").max(1);
+            let idx: Vec<usize> = (0..queries.len()).filter(|i| i % step == 0 || *i + 2 >= queries.len()).collect();
+            let q = idx[mc::choose(idx.len())];
+            search::search_case::<T>(metric, &data, &queries[q], &Opts { all_radii: false, all_k: job.b("all_k") });
+        }
+        other => panic!("unknown job kind {}", other),
+    }
+}
+
+fn run_est<T: Fl>(job: &Job, seed: u64) {
+    let m = seed_map(seed);
+    let metric = Metric::parse(job.s("metric"));
+    let n = job.u("n");
+    let dim = job.u("dim");
+    let kind = if job.s("est") == "cls" { est::Kind::Classifier } else { est::Kind::Regressor };
+    let p = draw_points(job, n, if dim == 2 { 9 } else { 5 });
+    let values: Vec<f64> = job.params["values"].as_array().unwrap().iter().map(|v| v.as_f64().unwrap()).collect();
+    let y: Vec<f64> = (0..n).map(|_| mc::pick(&values)).collect();
+    let k = mc::choose(n + 2);
+    let distance_weighted = mc::choose(2) == 1;
+    let cover_tree = mc::choose(2) == 0;
+    let (data, queries): (Vec<Vec<f64>>, Vec<Vec<f64>>) = if dim == 2 {
+        (p.iter().map(|&i| lat2(i, m)).collect(), (0..NQ2).map(|q| qgrid2(q, m)).collect())
+    } else {
+        (p.iter().map(|&i| lat1(i, m)).collect(), (0..NQ1).map(|q| qgrid1(q, m)).collect())
+    };
+    est::est_case::<T>(&data, &y, &queries, &est::Cfg { kind, metric, k, distance_weighted, cover_tree });
+}
+
+fn heap_model(tier: Tier) -> (heap::HeapModel, usize) {
+    if tier.is_thorough() {
+        (heap::HeapModel { ks: vec![1, 2, 3, 4, 5], values: vec![0, 1, 2, 3] }, 9)
+    } else {
+        (heap::HeapModel { ks: vec![1, 2, 3, 4], values: vec![0, 1, 2, 3] }, 7)
+    }
+}
+
+impl Harness for C04 {
+    fn id(&self) -> &'static str {
+        "C04"
+    }
+
+    fn plan(&self, tier: Tier, seed: u64) -> Plan {
+        let t = tier.is_thorough();
+        let mut jobs: Vec<Job> = Vec::new();
+        let all = Metric::ALL;
+        let search_job = |kind: &str, n: usize, metric: Metric, fixed: &[usize], f32_: bool| {
+            let fx: Vec<String> = fixed.iter().map(|x| x.to_string()).collect();
+            Job::new(
+                format!("{}-n{}-{}{}{}", kind, n, metric.name(), if f32_ { "-f32" } else { "" }, if fixed.is_empty() { String::new() } else { format!("-p{}", fx.join("_")) }),
+                json!({"kind": kind, "n": n, "metric": metric.name(), "fixed": fixed, "f32": f32_, "seed": seed}),
+            )
+        };
+        // ---- 3x3 lattice, every sequence
+        let (lat2_all_metrics, lat2_euclid) = if t { (6, 7) } else { (4, 5) };
+        for n in 1..=lat2_euclid {
+            for &metric in &all {
+                if n > lat2_all_metrics && metric != Metric::Euclid {
+                    continue;
+                }
+                match n {
+                    1..=3 => jobs.push(search_job("lat2", n, metric, &[], false)),
+                    4 | 5 => (0..9).for_each(|a| jobs.push(search_job("lat2", n, metric, &[a], false))),
+                    6 => (0..81).for_each(|a| jobs.push(search_job("lat2", n, metric, &[a / 9, a % 9], false))),
+                    _ => (0..729).for_each(|a| jobs.push(search_job("lat2", n, metric, &[a / 81, a / 9 % 9, a % 9], false))),
+                }
+            }
+        }
+        // ---- 1-D lattice, every sequence
+        let lat1_max = if t { 7 } else { 5 };
+        for n in 1..=lat1_max {
+            for &metric in &all {
+                if n <= 5 {
+                    jobs.push(search_job("lat1", n, metric, &[], false));
+                } else {
+                    (0..5).for_each(|a| jobs.push(search_job("lat1", n, metric, &[a], false)));
+                }
+            }
+        }
+        // ---- f32 on the small lattices
+        for n in 1..=(if t { 5 } else { 3 }) {
+            for &metric in &all {
+                if n <= 3 {
+                    jobs.push(search_job("lat2", n, metric, &[], true));
+                } else {
+                    (0..9).for_each(|a| jobs.push(search_job("lat2", n, metric, &[a], true)));
+                }
+            }
+        }
+        // ---- scale-boundary alphabet of the cover tree (1-D, continuous values)
+        let nletters = scale_alphabet().len();
+        for n in 2..=(if t { 4 } else { 3 }) {
+            for metric in [Metric::Euclid, Metric::Manhattan] {
+                if n <= 2 {
+                    jobs.push(search_job("scale", n, metric, &[], false));
+                } else if n == 3 {
+                    (0..nletters).for_each(|a| jobs.push(search_job("scale", n, metric, &[a], false)));
+                } else {
+                    (0..nletters * nletters).for_each(|a| jobs.push(search_job("scale", n, metric, &[a / nletters, a % nletters], false)));
+                }
+            }
+        }
+        // ---- estimators
+        let est_job = |est: &str, dim: usize, n: usize, metric: Metric, fixed: &[usize], values: &[f64], f32_: bool| {
+            let fx: Vec<String> = fixed.iter().map(|x| x.to_string()).collect();
+            Job::new(
+                format!("est-{}-d{}-n{}-{}-v{}{}{}", est, dim, n, metric.name(), values.len(), if f32_ { "-f32" } else { "" }, if fixed.is_empty() { String::new() } else { format!("-p{}", fx.join("_")) }),
+                json!({"kind": "est", "est": est, "dim": dim, "n": n, "metric": metric.name(), "fixed": fixed, "values": values, "f32": f32_, "seed": seed}),
+            )
+        };
+        let est_metrics: &[Metric] = if t { &all } else { &[Metric::Euclid, Metric::Hamming] };
+        let (est1_max, est2_max) = if t { (5, 4) } else { (4, 3) };
+        for n in 1..=est1_max.max(est2_max) {
+            for &metric in est_metrics {
+                for (est, values) in [("cls", &CLS_LABELS[..]), ("reg", &REG_TARGETS[..]), ("cls", &CLS_LABELS2[..])] {
+                    if values.len() == 2 && (metric != Metric::Euclid) {
+                        continue;
+                    }
+                    if n <= est1_max {
+                        if n <= 3 {
+                            jobs.push(est_job(est, 1, n, metric, &[], values, false));
+                        } else {
+                            (0..5).for_each(|a| jobs.push(est_job(est, 1, n, metric, &[a], values, false)));
+                        }
+                    }
+                    if n <= est2_max {
+                        if n <= 2 {
+                            jobs.push(est_job(est, 2, n, metric, &[], values, false));
+                        } else if n == 3 {
+                            (0..9).for_each(|a| jobs.push(est_job(est, 2, n, metric, &[a], values, false)));
+                        } else {
+                            (0..81).for_each(|a| jobs.push(est_job(est, 2, n, metric, &[a / 9, a % 9], values, false)));
+                        }
+                    }
+                }
+            }
+        }
+        // f32 estimators on the smallest spaces
+        for n in 1..=3 {
+            for (est, values) in [("cls", &CLS_LABELS[..]), ("reg", &REG_TARGETS[..])] {
+                jobs.push(est_job(est, 1, n, Metric::Euclid, &[], values, true));
+            }
+        }
+        // ---- structured larger sets
+        let sizes: &[usize] = if t { &[8, 27, 64, 125, 200] } else { &[8, 27, 64] };
+        let dims: &[usize] = if t { &[1, 2, 3, 4, 5, 6] } else { &[1, 2, 3, 6] };
+        for &n in sizes {
+            for &dim in dims {
+                for fam in FAMILIES {
+                    for &metric in &all {
+                        if !t && !(metric == Metric::Euclid || (metric == Metric::Manhattan && dim == 2) || (metric == Metric::Hamming && dim == 3) || (metric == Metric::Mink3 && dim == 6)) {
+                            continue;
+                        }
+                        let qstep = if t { if n > 64 { 3 } else { 1 } } else if n > 27 { 8 } else { 2 };
+                        jobs.push(Job::new(
+                            format!("fam-{}-n{}-d{}-{}", fam, n, dim, metric.name()),
+                            json!({"kind": "fam", "family": fam, "n": n, "dim": dim, "metric": metric.name(), "qstep": qstep, "all_k": t && n <= 64, "f32": false, "seed": seed}),
+                        ));
+                    }
+                }
+            }
+        }
+        Plan {
+            jobs,
+            budget_s: if t { 2400 } else { 40 },
+            case_deadline_ms: 20_000,
+            floors: vec![
+                ("tie_between_neighbours", 1000),
+                ("query_coincides_with_a_point", 1000),
+                ("knn_not_a_prefix_of_data_order", 1000),
+                ("data_with_duplicates", 1000),
+                ("data_all_identical", 50),
+                ("data_single_point", 50),
+                ("err_k_zero", 1000),
+                ("err_k_gt_n", 1000),
+                ("err_radius_nonpositive", 1000),
+                ("radius_equals_a_distance", 1000),
+                ("estimator_k_zero_rejected", 100),
+                ("estimator_k_gt_n_rejected", 100),
+                ("est_rows_with_several_valid_neighbour_sets", 1000),
+                ("cls_rows_with_plurality_tie", 1000),
+                ("est_rows_exact_match_takes_all_weight", 1000),
+                ("heap_root_replaced", 100),
+                ("heap_element_equal_to_root_arrived", 100),
+                ("heap_peek_mut_then_heapify", 100),
+            ],
+            bounds: json!({
+                "lattice_3x3": format!("every sequence of 1..{} points x 25 half-step queries, all 4 metrics; Euclidean up to {} points; f32 up to {} points", lat2_all_metrics, lat2_euclid, if t { 5 } else { 3 }),
+                "lattice_1d": format!("every sequence of 1..{} points of {{0..4}} x 11 half-step queries, all 4 metrics", lat1_max),
+                "scale_boundary_alphabet": format!("every sequence of 2..{} points over {} letters (0, 1.3^s and its two floating-point neighbours, s=-2..3) x {} queries; Euclidean and Manhattan", if t { 4 } else { 3 }, nletters, nletters + 1),
+                "per_search_case": "both structures x every k in 0..=n+1 x radii {each distinct realised distance d, next_down(d), next_up(d), midpoints, beyond all, 0, -0, -1}",
+                "structured_sets": format!("families {:?}, n in {:?}, dim in {:?}; queries: data points, midpoints of consecutive points, 2 outside points", FAMILIES, sizes, dims),
+                "estimators": format!("1-D sequences up to {} points, 3x3 sequences up to {} points x every labelling over {:?} / {:?} / targets {:?} x k in 0..=n+1 x 2 weights x 2 structures x all queries of the grid; metrics {:?}", est1_max, est2_max, CLS_LABELS, CLS_LABELS2, REG_TARGETS, est_metrics.iter().map(|m| m.name()).collect::<Vec<_>>()),
+                "heap_selection_e2": if t { "k in 1..5, add(v) v in 0..3, heapify, peek_mut+heapify; depth 9" } else { "k in 1..4, add(v) v in 0..3, heapify, peek_mut+heapify; depth 7" },
+                "seed_map": format!("coordinates c -> {}*c + {}", seed_map(seed).0, seed_map(seed).1),
+            }),
+        }
+    }
+
+    fn run(&self, job: &Job) {
+        let seed = job.params["seed"].as_u64().unwrap_or(0);
+        let f32_ = job.b("f32");
+        match job.kind() {
+            "heap-replay" => heap::replay_case(job.u("k"), &heap::acts_from_json(&job.params["actions"])),
+            "est" => {
+                if f32_ {
+                    run_est::<f32>(job, seed)
+                } else {
+                    run_est::<f64>(job, seed)
+                }
+            }
+            _ => {
+                if f32_ {
+                    run_search::<f32>(job, seed)
+                } else {
+                    run_search::<f64>(job, seed)
+                }
+            }
+        }
+    }
+
+    fn extra(&self, tier: Tier, _seed: u64) -> Vec<ExtraResult> {
+        let (model, depth) = heap_model(tier);
+        let a = mc::bfs::search("HeapSelection", &model, depth, 5_000_000);
+        // determinism of the transition function: a second search must see the same graph
+        let b = mc::bfs::search("HeapSelection", &model, depth, 5_000_000);
+        if a.states != b.states || a.transitions != b.transitions {
+            panic!("nondeterministic transitions: {} / {} states, {} / {} transitions", a.states, b.states, a.transitions, b.transitions);
+        }
+        vec![a]
+    }
+
+    fn rule(&self) -> String {
+        "search: one execution = one (point sequence, query, metric, float type), checked on both structures for every k and every radius of the radius alphabet; non-trivial when n >= 2 and at least one structure was built; estimators: one execution = one (point sequence, labelling, k, weight, structure), predictions for all queries of the grid, non-trivial when predictions were returned; distinct = distinct digest of the returned (index, distance) lists / predictions".into()
+    }
+
+    fn assumptions(&self) -> Vec<String> {
+        vec![
+            "the four Distance implementations are deterministic functions of their arguments (the oracle calls the same objects, so distances compare bit-exactly)".into(),
+            "no RNG is involved in any explored path (none of the C04 anchors draws random numbers)".into(),
+            "HeapSelection's Debug rendering shows all of its fields (k, n, sorted, heap), so equal renderings mean equal objects".into(),
+        ]
+    }
+
+    fn engine(&self) -> &'static str {
+        "E1 stateless choice-tree exploration of the real code + E2 explicit-state BFS over the real HeapSelection"
+    }
+}
+
+fn main() {
+    mc::main(C04)
+}
+
+#[allow(dead_code)]
+fn _v(_: Value) {}
